@@ -1,8 +1,8 @@
 (* C12 - per-region GenBank extracts.
    Faithful executable model of antismash/common/secmet/features/region/helpers.py:
-   RegionData.crosses_origin, _build_annotations (the three antiSMASH-Data entries),
-   _build_record_from_cross_origin, _build_base_record, _adjust_motif, _adjust_protocluster,
-   _adjust_features and write_to_genbank (including the save/restore of the parent's feature
+   RegionData.crosses_origin, _linearise_location, _build_annotations (the three antiSMASH-Data
+   entries), _build_record_from_cross_origin, _build_base_record, _adjust_motif, _adjust_protocluster,
+   _build_renumbering, _adjust_features and write_to_genbank (including the save/restore of the parent's feature
    locations), over the bio-level view of a record: a sequence (list of base codes) and the
    ordered list of SeqFeatures (type, location, the qualifiers the code reads or writes).
    Biopython's SeqRecord slicing (keep the features that lie completely inside, shift them by
@@ -54,7 +54,9 @@ Record rdata := mkR {
   rcands : list (Z * list (Z * loc));
   rsubs : list Z }.
 
-Definition crosses (r : rdata) : bool := rend r <? rstart r.
+(* start >= end: a region is never empty, so start = end is a region covering the whole ring, cut at
+   start (repaired finding whole_ring_region) *)
+Definition crosses (r : rdata) : bool := rend r <=? rstart r.
 
 (* ---------- Python / Biopython slicing ---------- *)
 (* slice.indices(N) for one bound, step 1 *)
@@ -75,6 +77,13 @@ Definition slice_feats (feats : list feat) (a b : Z) : list feat :=
 (* (NOTE kind: 1 = cross-origin text, 0 = plain text; Orig. start; Orig. end) *)
 Definition build_annotations (r : rdata) : list Z :=
   [if crosses r then 1 else 0; rstart r; rend r].
+
+(* ---------- _linearise_location ---------- *)
+(* a location covering the whole ring is left alone by offset_location (it is the same at any
+   offset); in the linear extract it is FeatureLocation(0, record_length, location.strand) *)
+Definition linearise_loc (l : loc) (start N : Z) : res loc :=
+  if llen l =? N then do p <- mkFL 0 N (lstrand l); Ok [p]
+  else offset_location l (- start) (Some N).
 
 (* ---------- _build_record_from_cross_origin ---------- *)
 (* every part of an origin-crossing feature lies in the pre-origin or in the post-origin half of
@@ -99,7 +108,7 @@ Definition build_cross (r : rdata) (sq : list Z) (feats : list feat)
   let sq' := pyslice sq a N ++ pyslice sq 0 b in
   do post <- mapM (fun f => do l <- offset_location (floc f) (N - rstart r) (Some N);
                             Ok (set_loc f l)) post0;
-  do cross <- mapM (fun f => do l <- offset_location (floc f) (- rstart r) (Some N);
+  do cross <- mapM (fun f => do l <- linearise_loc (floc f) (rstart r) N;
                              Ok (set_loc f l)) (filter (cross_kept r) feats);
   Ok (sq', pre ++ cross ++ post).
 
@@ -149,9 +158,57 @@ Definition adjust_motif_opt (start N : Z) (o : option loc) : res (option loc) :=
   | Some l => do l' <- adjust_motif_loc start N l; Ok (Some l')
   end.
 
+(* ---------- _build_renumbering ---------- *)
+(* (start, -length, number in the parent record) of every feature of one type in the extract; in a
+   region that does not cross the origin the extract keeps the parent's order and the position part
+   is (0, 0).  feature.qualifiers[qualifier][0] of a feature without the qualifier: KeyError *)
+Definition nkey := (Z * Z * Z)%type.
+Definition nk_num (k : nkey) : Z := snd k.
+(* tuple comparison *)
+Definition nkey_lt (a b : nkey) : bool :=
+  let '(s1, l1, n1) := a in
+  let '(s2, l2, n2) := b in
+  (s1 <? s2) || ((s1 =? s2) && ((l1 <? l2) || ((l1 =? l2) && (n1 <? n2)))).
+
+Definition feat_key (crossing : bool) (f : feat) (n : Z) : nkey :=
+  if crossing then (lstart (floc f), - llen (floc f), n) else (0, 0, n).
+
+Fixpoint num_keys (crossing : bool) (t : Z) (fs : list feat) : res (list nkey) :=
+  match fs with
+  | [] => Ok []
+  | f :: rest =>
+    if ftype f =? t then
+      match fq1 f with
+      | [] => Err E_Key
+      | n :: _ => do ks <- num_keys crossing t rest; Ok (feat_key crossing f n :: ks)
+      end
+    else num_keys crossing t rest
+  end.
+
+(* {original: index + 1 for index, (_, _, original) in enumerate(sorted(ordered))}, as the list of
+   insertions (a later insertion with the same key replaces the value) *)
+Fixpoint number_from (i : Z) (ks : list nkey) : list (Z * Z) :=
+  match ks with
+  | [] => []
+  | k :: r => (nk_num k, i) :: number_from (i + 1) r
+  end.
+
+Definition renumbering (crossing : bool) (t : Z) (fs : list feat) : res (list (Z * Z)) :=
+  do ks <- num_keys crossing t fs; Ok (number_from 1 (sort_by nkey_lt ks)).
+
+Fixpoint lookup_num (k : Z) (l : list (Z * Z)) (acc : option Z) : option Z :=
+  match l with
+  | [] => acc
+  | (k', v) :: r => lookup_num k r (if k' =? k then Some v else acc)
+  end.
+
+(* numbers[n] *)
+Definition new_number (m : list (Z * Z)) (n : Z) : res Z :=
+  match lookup_num n m None with Some i => Ok i | None => Err E_Key end.
+
 (* ---------- _adjust_features ---------- *)
 Record actx := mkCtx {
-  c_first_cc : Z; c_first_cluster : Z; c_first_sub : Z;
+  c_cc : list (Z * Z); c_pc : list (Z * Z); c_sub : list (Z * Z);   (* the three renumberings *)
   c_protos : list (Z * loc);       (* protoclusters_by_original_number, insertion order *)
   c_start : Z; c_len : Z }.
 
@@ -164,44 +221,39 @@ Fixpoint lookup_last (k : Z) (l : list (Z * loc)) (acc : option loc) : option lo
 
 Definition all_protos (r : rdata) : list (Z * loc) := flat_map snd (rcands r).
 
-Definition make_ctx (r : rdata) (N : Z) : res actx :=
-  let protos := all_protos r in
-  do firsts <-
-    (match rcands r with
-     | [] => Ok (0, 0)
-     | _ => match protos with
-            | [] => Err E_Value          (* min() of an empty sequence *)
-            | _ => Ok (lmin (map fst (rcands r)), lmin (map fst protos))
-            end
-     end);
-  let first_sub := match rsubs r with [] => 0 | _ => lmin (rsubs r) end in
-  Ok (mkCtx (fst firsts) (snd firsts) first_sub protos (rstart r) N).
-
-Definition renum (first n : Z) : Z := n - first + 1.
+(* fs = the features of the extract (region_record.features) *)
+Definition make_ctx (r : rdata) (N : Z) (fs : list feat) : res actx :=
+  do cc <- renumbering (crosses r) T_cand fs;
+  do pc <- renumbering (crosses r) T_proto fs;
+  do sb <- renumbering (crosses r) T_sub fs;
+  Ok (mkCtx cc pc sb (all_protos r) (rstart r) N).
 
 Definition adjust_feat (c : actx) (f : feat) : res feat :=
   if ftype f =? T_region then
     (* subregion_numbers first, then (if there are any) candidate_cluster_numbers *)
-    let subs := map (renum (c_first_sub c)) (fq2 f) in
+    do subs <- mapM (new_number (c_sub c)) (fq2 f);
     match fq1 f with
     | [] => Ok (set_q12 f [] subs)
-    | q => Ok (set_q12 f (map (renum (c_first_cc c)) q) subs)
+    | q => do cs <- mapM (new_number (c_cc c)) q; Ok (set_q12 f cs subs)
     end
   else if ftype f =? T_cand then
     match fq1 f with
     | [] => Err E_Key
-    | n :: _ => Ok (set_q12 f [renum (c_first_cc c) n] (map (renum (c_first_cluster c)) (fq2 f)))
+    | n :: _ =>
+      do n' <- new_number (c_cc c) n;
+      do ps <- mapM (new_number (c_pc c)) (fq2 f);
+      Ok (set_q12 f [n'] ps)
     end
   else if (ftype f =? T_proto) || (ftype f =? T_core) then
     match fq1 f with
     | [] => Err E_Key
     | orig :: _ =>
-      let new := renum (c_first_cluster c) orig in
+      do new <- new_number (c_pc c) orig;
       match lookup_last orig (c_protos c) None with
       | None => Err E_Key
       | Some core =>
         if ftype f =? T_proto then
-          do nl <- offset_location core (- c_start c) (Some (c_len c));
+          do nl <- linearise_loc core (c_start c) (c_len c);
           Ok (set_q1_l1 f [new] (Some nl))
         else Ok (set_q1 f [new])
       end
@@ -209,7 +261,7 @@ Definition adjust_feat (c : actx) (f : feat) : res feat :=
   else if ftype f =? T_sub then
     match fq1 f with
     | [] => Err E_Key
-    | n :: _ => Ok (set_q1 f [renum (c_first_sub c) n])
+    | n :: _ => do n' <- new_number (c_sub c) n; Ok (set_q1 f [n'])
     end
   else if ftype f =? T_motif then
     do a <- adjust_motif_opt (c_start c) (c_len c) (fl1 f);
@@ -233,7 +285,7 @@ Definition write_to_genbank (r : rdata) (sq : list Z) (feats : list feat) : res 
   let original_locations := map floc feats in
   do base <- build_base r sq feats;
   let '(sq', rfeats) := base in
-  do c <- make_ctx r (zlen sq);
+  do c <- make_ctx r (zlen sq) rfeats;
   do adjusted <- mapM (adjust_feat c) rfeats;
   let annot := build_annotations r in
   Ok (mkOut sq' adjusted annot (restore feats original_locations)).
@@ -423,10 +475,9 @@ Definition write_to_genbank_rec (r : rdata) (sq : list Z) (feats : list feat) (a
   Ok (mkOut2 o a).
 
 (* ---------- decidable specification, evaluated on an output (model's or implementation's) ---------- *)
-(* a region is never empty: start = end can only be the whole ring, cut at start *)
+(* a region is never empty: start = end can only be the whole ring, cut at start (then crosses r) *)
 Definition out_len (r : rdata) (N : Z) : Z :=
-  if crosses r then N - rstart r + rend r
-  else if rstart r =? rend r then N else rend r - rstart r.
+  if crosses r then N - rstart r + rend r else rend r - rstart r.
 
 Definition expected_seq (r : rdata) (sq : list Z) : list Z :=
   let N := zlen sq in
@@ -464,6 +515,21 @@ Definition numbers_ok (fs : list feat) : bool :=
     else if ftype f =? T_core then subset (firstn 1 (fq1 f)) protos
     else true) fs.
 
+(* in an origin-crossing region the numbers of the areas of one type follow their position in the
+   extract (start, longer first), as a record built from the file numbers them *)
+Definition area_lt (a b : feat) : bool :=
+  (lstart (floc a) <? lstart (floc b)) ||
+  ((lstart (floc a) =? lstart (floc b)) && (llen (floc b) <? llen (floc a))).
+Definition num_lt (a b : feat) : bool :=
+  match fq1 a, fq1 b with n :: _, m :: _ => n <? m | _, _ => false end.
+Definition position_order_type (t : Z) (fs : list feat) : bool :=
+  let l := filter (fun f => ftype f =? t) fs in
+  forallb (fun a => forallb (fun b => if area_lt a b then num_lt a b else true) l) l.
+Definition position_order (r : rdata) (fs : list feat) : bool :=
+  if crosses r
+  then position_order_type T_cand fs && position_order_type T_proto fs && position_order_type T_sub fs
+  else true.
+
 Definition feat_eqb (a b : feat) : bool :=
   (ftype a =? ftype b) && (ftag a =? ftag b) && loc_eqb (floc a) (floc b) &&
   list_eqb Z.eqb (fq1 a) (fq1 b) && list_eqb Z.eqb (fq2 a) (fq2 b) &&
@@ -476,56 +542,31 @@ Definition spec_flags (r : rdata) (sq : list Z) (feats : list feat) (o : output)
   let len := out_len r (zlen sq) in
   [ list_eqb Z.eqb (o_seq o) (expected_seq r sq);
     forallb (fun f => loc_inside len (floc f)) (o_feats o);
-    numbers_ok (o_feats o);
+    numbers_ok (o_feats o) && position_order r (o_feats o);
     forallb (fun f => if (ftype f =? T_motif) || (ftype f =? T_proto)
                       then optloc_inside len (fl1 f) && optloc_inside len (fl2 f) else true) (o_feats o);
     list_eqb feat_eqb (o_parent o) feats;
     list_eqb Z.eqb (o_annot o) (build_annotations r) ].
 
-(* guards = hypotheses under which the corresponding flag is proved / expected (the complement
-   of the first guard is the recorded finding class whole_ring_region, of the numbering guard
-   wrapped_region_numbering) *)
+(* guards = hypotheses under which the corresponding flag is proved / expected.  Since the repair of
+   whole_ring_region and wrapped_region_numbering the only one left is that the numbers of the
+   parent's candidate clusters, protoclusters and sub-regions are distinct per type (they are positions
+   in the record's lists) *)
 Definition adjustable (f : feat) : bool :=
   (ftype f =? T_region) || (ftype f =? T_cand) || (ftype f =? T_proto) || (ftype f =? T_core)
   || (ftype f =? T_sub) || (ftype f =? T_motif).
 
-Definition contiguous (l : list Z) : bool :=
+Fixpoint nodupb (l : list Z) : bool :=
   match l with
   | [] => true
-  | _ => let s := dedup_sorted (zsort l) in
-         list_eqb Z.eqb s (map (fun i => Z.of_nat i + lmin l) (seq 0 (length s)))
+  | x :: r => negb (existsb (Z.eqb x) r) && nodupb r
   end.
+Definition distinct_numbers (fs : list feat) : bool :=
+  nodupb (nums_of T_cand fs) && nodupb (nums_of T_proto fs) && nodupb (nums_of T_sub fs).
 
-(* the numbers of the area features of one type increase with their position in the extract
-   (the reload numbers areas by position: start, longer first; equal keys are excluded) *)
-Definition area_lt (a b : feat) : bool :=
-  (lstart (floc a) <? lstart (floc b)) ||
-  ((lstart (floc a) =? lstart (floc b)) && (llen (floc b) <? llen (floc a))).
-Fixpoint increasing_areas (l : list feat) : bool :=
-  match l with
-  | x :: ((y :: _) as t) =>
-    area_lt x y && (match fq1 x, fq1 y with n :: _, m :: _ => n <? m | _, _ => false end)
-    && increasing_areas t
-  | _ => true
-  end.
-Definition order_ok_type (t : Z) (fs : list feat) : bool :=
-  increasing_areas (sort_by area_lt (filter (fun f => ftype f =? t) fs)).
-Definition order_ok (r : rdata) (sq : list Z) (feats : list feat) : bool :=
-  match write_to_genbank r sq feats with
-  | Ok o => order_ok_type T_cand (o_feats o) && order_ok_type T_proto (o_feats o)
-            && order_ok_type T_sub (o_feats o)
-  | Err _ => true
-  end.
-
-(* [not the whole ring; -; numbering guard; -; -; -] *)
+(* [-; -; distinct numbers; -; -; -] *)
 Definition guard_flags (r : rdata) (sq : list Z) (feats : list feat) : list bool :=
-  [ negb (rstart r =? rend r);
-    true;
-    contiguous (map fst (rcands r)) && contiguous (map fst (all_protos r)) && contiguous (rsubs r)
-      && order_ok r sq feats;
-    true;
-    true;
-    true ].
+  [ true; true; distinct_numbers feats; true; true; true ].
 
 (* ---------- specification of the annotations (stated on the trees, no heap) ---------- *)
 (* the structured comment the region file must carry: the parent's, with NOTE / Orig. start /
